@@ -374,6 +374,32 @@ u_options(uint64_t idx, void *arg)
         }
         VH_CASE4(idx, k, f.type, f.options);
         judge(raw, n, serial, 0, what, "generated");
+        if ((k & 7) == 3 && x >= 4) {
+            /* every single-bit flip of this (intact) frame: without a header checksum nothing but the
+             * field validation and the size/checksum checks stand between a flipped bit and the backend */
+            unsigned char m[170];
+            for (size_t b = 0; b < n * 8; b++) {
+                memcpy(m, raw, n);
+                m[b >> 3] ^= (unsigned char)(0x80u >> (b & 7));
+                VH_SUB(4, b);
+                judge(m, n, serial, 0, (f.options & ROPT_HDCRC) ? "option-combination-bit-flip" : "bit-flip-without-header-checksum",
+                      "generated");
+            }
+            VH_COUNT("every single-bit flip of a generated frame (all option-bit combinations)");
+        }
+        if ((k & 7) == 5 && f.plen) {
+            /* size field with high bits set while the low bits still match the payload */
+            static const uint32_t hi[] = { 0x80000000u, 0x40000000u, 0xc0000000u, 0xffff0000u, 0x00010000u, 0x7fffff00u };
+            unsigned char m[170];
+            for (size_t h = 0; h < 6; h++) {
+                struct rframe g = f;
+                g.bsize = f.bsize | hi[h];
+                size_t gn = rp_encode_raw(&g, m);
+                VH_SUB(4, h);
+                judge(m, gn, serial, 0, "size-field-high-bits", "generated");
+            }
+            VH_COUNT("size field with high bits set over a matching low part");
+        }
         if ((k & 7) == 0) {
             /* every truncation length of this option combination (minimum-length checks per combination) */
             for (size_t t = 0; t < n; t++) {
@@ -418,7 +444,9 @@ harness_run(void)
                                  "payload checksum declared without header checksum, payload damaged",
                                  "odd number of payload octets under 16-bit semantics",
                                  "arbitrary octet strings judged",
-                                 "option-bit combination truncated at every length" };
+                                 "option-bit combination truncated at every length",
+                                 "every single-bit flip of a generated frame (all option-bit combinations)",
+                                 "size field with high bits set over a matching low part" };
     for (size_t i = 0; i < sizeof req / sizeof req[0]; i++)
         vh_require(req[i]);
 }
